@@ -46,3 +46,25 @@ class EvictingMap(RetainingMap):
             self.evicted.append(k)
             return True
         return False
+
+
+class MappingRefusal(TypeError):
+    """Raised by PickyMap.__setitem__: the caller-supplied mapping refuses a value."""
+
+
+class PickyMap(EvictingMap):
+    """A caller-supplied mapping that refuses to store some values (as a WeakValueDictionary refuses None / ints, or a
+    validating / bounded mapping would)."""
+
+    def __init__(self, refuse_every=2):
+        super().__init__()
+        self.refuse_every = refuse_every
+        self.refused = 0
+
+    def __setitem__(self, k, v):
+        self.sets += 1
+        if v is None or self.sets % self.refuse_every == 0:
+            self.refused += 1
+            raise MappingRefusal(f'value {v!r} refused')
+        d = self.d
+        d[k] = v
